@@ -62,7 +62,10 @@ def bases(unix_future):
         'int': m('/a', [1]),
         'float': m('/a', [0.5]),
         'str': m('/a', ['xy']),
-        'str4': m('/ab', ['wxyz']),     # needs a whole extra word of padding
+        # strings whose length is a multiple of 4 need a whole extra word of
+        # padding; something must follow them for a cursor slip to show
+        'str4': m('/ab', ['wxyz', 3]),
+        'addr4': m('/abc', [1]),
         'blob': m('/a', [b'\x01\x02\x03\x04\x05']),
         'bool': m('/a', [True, False]),
         'array': m('/a', [[1, 2]]),
